@@ -249,6 +249,8 @@ func (wr *Writer) tightSlice(rv reflect.Value, si *sinfo) {
 			wr.tightSlice(rm, si)
 		case reflect.Map:
 			wr.tightMap(rm, si)
+		case reflect.Invalid: // a nil pointer element
+			wr.buf = append(wr.buf, "null"...)
 		default:
 			wr.appendJSON(rm.Interface(), 0)
 		}
@@ -303,6 +305,9 @@ func (wr *Writer) tightMap(rv reflect.Value, si *sinfo) {
 			wr.buf = ojg.AppendJSONString(wr.buf, kv.String(), !wr.HTMLUnsafe)
 			wr.buf = append(wr.buf, ':')
 			wr.appendJSON(rm.Interface(), 0)
+		case reflect.Invalid: // a nil pointer member (OmitNil is off)
+			wr.buf = ojg.AppendJSONString(wr.buf, kv.String(), !wr.HTMLUnsafe)
+			wr.buf = append(wr.buf, ":null"...)
 		default:
 			wr.buf = ojg.AppendJSONString(wr.buf, kv.String(), !wr.HTMLUnsafe)
 			wr.buf = append(wr.buf, ':')
